@@ -169,11 +169,12 @@ def spaced(sites, samples, gap, margin):
     return True
 
 
-def lo_snp_scenario(rng, k, ns, length, nsites, tries=100):
+def lo_snp_scenario(rng, k, ns, length, nsites, tries=100, amb=False):
+    """amb: the pair of (k-1)/2-base flanks around a position next to the first site occurs one to three more times in the
+    ancestor with other middle bases (every (k-1)-mer stays unique): that split k-mer carries an ambiguity code of two,
+    three or four bases in every sample."""
     for _ in range(tries):
         anc = gen.rand_seq(rng, length)
-        if not mers_unique_per_position([[{"seq": anc, "off": 0, "rev": False}]], k - 1):
-            continue
         sites, lo, hi = [], k, length - 1 - k
         for _ in range(nsites * 30):
             p = rng.randint(lo, hi)
@@ -183,6 +184,36 @@ def lo_snp_scenario(rng, k, ns, length, nsites, tries=100):
                 break
         sites.sort()
         if not sites:
+            continue
+        if amb:
+            h = (k - 1) // 2
+            p = rng.choice(sites)
+            q = p + rng.choice([-1, 1]) * rng.randint(1, h)
+            if q - h < 0 or q + h + 1 > length:
+                continue
+            others = [x for x in "ACGT" if x != anc[q]]
+            rng.shuffle(others)
+            nother = rng.choice([1, 2, 2, 2, 3])
+            if nother == 2 and isinstance(amb, int) and not isinstance(amb, bool):
+                # the three-base codes in turn (amb = 1..4 names the base left out: B, V, H, D)
+                out = "ACGT"[(amb - 1) % 4]
+                if anc[q] == out:
+                    continue
+                others = [x for x in others if x != out] + [out]
+            spots, ok = [], True
+            for x in others[:nother]:
+                for _t in range(60):
+                    a = rng.randint(0, length - k)
+                    if all(abs(a + h - z) >= 2 * k + 2 for z in sites) and all(abs(a - z) >= 2 * k for z in spots) and abs(a + h - q) >= 2 * k:
+                        break
+                else:
+                    ok = False
+                    break
+                spots.append(a)
+                anc = anc[:a] + anc[q - h:q] + x + anc[q + 1:q + h + 1] + anc[a + k:]
+            if not ok:
+                continue
+        if not mers_unique_per_position([[{"seq": anc, "off": 0, "rev": False}]], k - 1):
             continue
         alleles = []
         for p in sites:
